@@ -50,9 +50,9 @@ fn check_skip(enc: &[u8], suffix: &[u8], use_walker: bool, all_prefixes: bool, g
     buf.extend_from_slice(suffix);
     let _case = crate::total::case_guard("Decoder::skip", &buf);
     let mut d = Decoder::new(&buf);
-    verif::arm(64 * buf.len() as u64 + 1024);
-    let r = d.skip();
-    let steps = verif::disarm();
+    // long inputs are skipped on a thread with the default 2 MiB stack (input-controlled recursion must not overflow it)
+    let (r, steps) = if buf.len() > 2000 { crate::total::on_default_stack(|| { let _case = crate::total::case_guard("Decoder::skip", &buf); verif::arm(64 * buf.len() as u64 + 1024); let r = d.skip(); (r, verif::disarm()) }) }
+                     else { verif::arm(64 * buf.len() as u64 + 1024); let r = d.skip(); (r, verif::disarm()) };
     match r {
         Ok(()) => ensure!(d.position() == enc.len(), "wrong-position", "skip() over {} (followed by {}) stopped at {}, the item ends at {}", short_hex(enc), short_hex(suffix), d.position(), enc.len()),
         Err(e) => fail!("rejected", "skip() failed on the well-formed item {}: {} (after {} steps)", short_hex(enc), e, steps)
@@ -165,9 +165,8 @@ fn raw_input(g: &mut Gen, st: &mut Stats) -> CaseResult {
     st.eval();
     let _ = g.byte();
     let input = g.rest().to_vec();
-    let _case = crate::total::case_guard("Decoder::skip", &input);
     let mut d = Decoder::new(&input);
-    let _ = d.skip();
+    crate::total::on_default_stack(|| { let _case = crate::total::case_guard("Decoder::skip", &input); let _ = d.skip(); });
     ensure!(d.position() <= input.len(), "position", "skip() left the decoder at {} of {}", d.position(), input.len());
     Ok(())
 }
